@@ -125,6 +125,8 @@ Result run(const Plan11 &p) {
 			}
 			int rc = blake2b_update(&l.st, data, (size_t)n);
 			int want = (!l.valid || l.finalized) && n > 0 ? -1 : 0;
+			// a zero-length update on a finished or rejected state: the property does not say; accept 0 and -1
+			if (n == 0 && (!l.valid || l.finalized) && (rc == 0 || rc == -1)) want = rc;
 			if (rc != want) fail("B2_UPDATE_STATUS", std::string("update returned ") + std::to_string(rc) + (l.finalized ? " after final" : !l.valid ? " on invalid state" : ""), "n=" + std::to_string(n), (int)si);
 			if (l.valid && !l.finalized) { l.ref.update(data, (size_t)n); l.fed += n; }
 			if (l.finalized || !l.valid) ++R.misuse;
@@ -341,7 +343,7 @@ int c11_worker(uint64_t seed, uint64_t from, uint64_t to, uint64_t step, double 
 	uint64_t done = 0;
 	bool thorough = tier == "thorough";
 	for (uint64_t idx = from; idx < to; idx += step) {
-		if (budget_s > 0 && now_s() - t0 > budget_s) break;
+		if (budget_s > 0 && done > 0 && now_s() - t0 > budget_s) break;
 		uint64_t run_seed = rt::mix64(rt::mix_str(seed, "C11"), idx);
 		bool huge = idx == 0; // one >4 GiB plan per check run (about 25 s on one worker)
 		Plan11 p = generate(run_seed, thorough, huge);
